@@ -42,7 +42,78 @@ MUTANTS = ["dynamic-scope", "assign-creates-local", "def-updates-outer",
            "method-without-receiver", "no-proto-walk"]
 
 
+# ---- callbacks handed to built-ins are bound like any other call
+
+def _lit(xs):
+    return "[" + ", ".join(str(x) for x in xs) + "]"
+
+
+def callback_cases(xs, v):
+    """(label, program, expected value as the model sees it)"""
+    asc = sorted(xs)
+    desc = sorted(xs, key=lambda x: -x)
+    idx = xs.index(v) if v in xs else -1
+    L = _lit(xs)
+    return [
+        ("find-key-rest", f"find({L}, [{v}], key = fn(r...) r...)", idx),
+        ("find-last-key-rest",
+         f"find_last({L}, [{v}], key = fn(r...) r...)",
+         (len(xs) - 1 - xs[::-1].index(v)) if v in xs else -1),
+        ("sorted-key-rest", f"sorted({L}, key = fn(r...) 0 - r...[0])", desc),
+        ("sorted-cmp-rest",
+         f"sorted({L}, cmp = fn(r...) compare(r...[0], r...[1]))", asc),
+        ("sorted-cmp-one-plus-rest",
+         f"def seen = []; def s = sorted({L}, cmp = fn(a, r...) do "
+         f"append(seen, length(r...)); compare(a, r...[0]) end); "
+         f"[s, length(seen) > 0 or length(s) < 2, "
+         f"[n for n in seen if n != 1]]",
+         [asc, True, []]),
+        ("sorted-key-default", f"sorted({L}, key = fn(a, b = 100) a + b)",
+         asc),
+        ("sorted-key-named-rest",
+         f"sorted({L}, key = fn(x, r...) [x, length(r...)])", asc),
+        ("user-higher-order",
+         f"def ap(f, x, y) f(x, y); ap(fn(a, r...) [a, r...], {v}, 2)",
+         [v, [2]]),
+    ]
+
+
+def callback_prop(label, src, want):
+    from vf import cklrun
+    from vf.model import values as mv
+    out = cklrun.run(src, budget=20)
+    if out[0] != "value":
+        return Finding(f"C03|callback-binding|{label}|{out[0]}",
+                       f"{src} -> {cklrun.short(out)}; expected {want!r}")
+    got = cklrun.to_model(out[1])
+    if not (mv.meq(got, want) and mv.deep_type(got) == mv.deep_type(want)):
+        return Finding(f"C03|callback-binding|{label}",
+                       f"{src} -> {got!r}; expected {want!r}")
+    return None
+
+
+def part_callbacks(part, n):
+    def body(tape):
+        ch = TapeChooser(tape)
+        xs = [ch.int(-3, 6) for _ in range(ch.int(0, 6))]
+        v = ch.choice(xs) if xs and ch.bool(0.7) else ch.int(-3, 6)
+        for label, src, want in callback_cases(xs, v):
+            part.count()
+            part.nontriv(src)
+            part.cls("callback:" + label, src)
+            f = callback_prop(label, src, want)
+            if f:
+                return f, {"kind": "callback", "xs": xs, "v": v,
+                           "label": label}
+    part.hyp(tapes(40), body, n)
+
+
 def prop(case):
+    if case.get("kind") == "callback":
+        for label, src, want in callback_cases(case["xs"], case["v"]):
+            if label == case["label"]:
+                return callback_prop(label, src, want)
+        return None
     import ast as _ast
     stmts = _ast.literal_eval(case["ast"])
     m = ME.model_run(stmts)
@@ -79,7 +150,10 @@ def part_programs(part, n):
 
 
 def parts(tier, seed):
+    cb = [("callbacks", part_callbacks,
+           {"n": 150 if tier == "quick" else 3000})]
     if tier == "quick":
-        return [(f"programs-{i}", part_programs, {"n": 1000})
-                for i in range(10)]
-    return [(f"programs-{i}", part_programs, {"n": 10000}) for i in range(12)]
+        return cb + [(f"programs-{i}", part_programs, {"n": 1000})
+                     for i in range(10)]
+    return cb + [(f"programs-{i}", part_programs, {"n": 10000})
+                 for i in range(12)]
